@@ -123,6 +123,19 @@ theorem fact_modelled_source_unchanged : Facts.C10.modelledSourceDigests = [("ev
     ("merge.go:contextSort", "a4fe7d831316"),
     ("finder.go:Find", "21d9d4d04ce6")] := by decide
 
+/-- wiring (`cmd/root.go`): there is ONE store object (one conflicted cache), it is what the network and the VDR are
+    given, it is a `core.Configurable` engine, and it is registered after the storage engine (so `Configure` — which
+    opens the database and loads the conflicted cache — runs on a configured storage) and before its users -/
+theorem fact_store_wiring :
+    Facts.C10.didStoreConstructions.length = 1 ∧
+    Facts.C10.didStoreUsers = ["network.NewNetworkInstance", "vdr.NewVDR"] ∧
+    Facts.C10.storeIsConfigurable = true ∧
+    Facts.C10.engineOrder.count "didStore" = 1 ∧
+    Facts.C10.engineOrder.idxOf "storageInstance" < Facts.C10.engineOrder.idxOf "didStore" ∧
+    Facts.C10.engineOrder.idxOf "didStore" < Facts.C10.engineOrder.idxOf "vdrInstance" ∧
+    Facts.C10.engineOrder.idxOf "didStore" < Facts.C10.engineOrder.idxOf "networkInstance" ∧
+    "vdrInstance" ∈ Facts.C10.engineOrder ∧ "networkInstance" ∈ Facts.C10.engineOrder := by decide
+
 /-! ### `before` is a strict total order on events with distinct refs -/
 
 theorem before_strict_total :
